@@ -213,14 +213,30 @@ class Pat:
                 env.update(e2)
                 return env
             return None
-        if isinstance(p, ast.If) and p.orelse and n.orelse and not (len(n.orelse) == 1 and isinstance(n.orelse[0], ast.If)):
+        if isinstance(p, ast.If) and p.orelse and n.orelse:
             # `if c: A else: B` also matches `if not c: B else: A` (canonical form has no leading `not` when there is an else)
             e1 = self._if(p, n, dict(env))
             if e1 is not None:
                 env.update(e1)
                 return env
-            flipped = ast.If(test=(p.test.operand if isinstance(p.test, ast.UnaryOp) and isinstance(p.test.op, ast.Not) else ast.UnaryOp(ast.Not(), p.test)), body=p.orelse, orelse=p.body)
+            wild = isinstance(p.test, ast.Name) and (p.test.id == _ANY or p.test.id.startswith(_EV))
+            flipped = ast.If(test=(p.test if wild else (p.test.operand if isinstance(p.test, ast.UnaryOp) and isinstance(p.test.op, ast.Not) else ast.UnaryOp(ast.Not(), p.test))), body=p.orelse, orelse=p.body)
             e2 = self._if(flipped, n, dict(env))
+            if e2 is not None:
+                env.update(e2)
+                return env
+            return None
+        if isinstance(p, ast.If) and not p.orelse and n.orelse and isinstance(p.test, ast.UnaryOp) and isinstance(p.test.op, ast.Not):
+            # `if not c: A` (pattern without else) also describes the else branch of `if c: ... else: A`
+            e1 = self._m(p.test, n.test, dict(env))
+            if e1 is not None:
+                e1 = self._body(p.body, n.body, e1)
+            if e1 is not None:
+                env.update(e1)
+                return env
+            e2 = self._m(p.test.operand, n.test, dict(env))
+            if e2 is not None:
+                e2 = self._body(p.body, n.orelse, e2)
             if e2 is not None:
                 env.update(e2)
                 return env
